@@ -16,8 +16,13 @@ use futures::Stream;
 use slab::Slab;
 use smallvec::{smallvec, SmallVec};
 use std::pin::Pin;
+#[cfg(not(swimos_verif_shuttle))]
 use std::sync::atomic::{AtomicUsize, Ordering};
 use std::sync::Arc;
+// Verification hook: under `--cfg swimos_verif_shuttle` the ready flags are atomics of the shuttle
+// scheduler so that every access is a scheduling point. Never set in product builds.
+#[cfg(swimos_verif_shuttle)]
+use shuttle::sync::atomic::{AtomicUsize, Ordering};
 use std::task::{Context, Poll};
 use waker_fn::waker_fn;
 
